@@ -63,6 +63,13 @@ def events_of(lines):
     return list(P().parse(iter(lines)))
 
 
+def events_of_async(lines):
+    """the same through parse_async (what TestRunTAP uses)"""
+    async def go():
+        return [e async for e in P().parse_async(_aiter(lines))]
+    return LOOP.run_until_complete(go())
+
+
 class _Harness:
     def log_subtest(self, *a, **k):
         pass
@@ -288,11 +295,20 @@ def oracle(item):
         add('exception', exc=type(e).__name__, longest_digit_run=max([len(x) for l in lines for x in re.findall('[0-9]+', l)] or [0]))
         return fails
     event_clauses(lines, evs, add)
+    try:
+        aevs = events_of_async(lines)
+        if aevs != evs:
+            add('parse_async_differs_from_parse', sync=[r_event(e).replace(SEP2, ' ') for e in evs][:30],
+                async_=[r_event(e).replace(SEP2, ' ') for e in aevs][:30])
+    except Exception as e:
+        add('exception_in_parse_async', exc=type(e).__name__)
     for rc in item.get('rcs', []):
         try:
             verdict_clause(lines, evs, rc, add)
         except Exception as e:
-            add('exception_in_TestRunTAP', exc=type(e).__name__, rc=rc)
+            add('exception_in_TestRunTAP', exc=type(e).__name__, rc=rc,
+                longest_digit_run=max([len(x) for l in lines for x in re.findall('[0-9]+', l)] or [0]))
+            break
     if 'abs' in item:
         tests, faults, clean = spec_stream(item['abs'])
         got = [(t.number, t.name, t.result.name, t.explanation) for t in evs if isinstance(t, P.Test)]
